@@ -18,6 +18,11 @@ def mutate_interior(rng, unit: bytes) -> bytes:
         return unit
     b = bytearray(unit)
     r = rng.random()
+    if rng.random() < 0.12:
+        # the interior ends in the first octet(s) of a high-tag-number identifier: complete envelope, incomplete header
+        tail = bytes([rng.choice([0x1F, 0x3F, 0x5F, 0x7F, 0x9F, 0xBF, 0xDF, 0xFF])]) + rng.choice([b"", b"\x81", b"\x81\x80"])
+        keep = rng.choice([ln, ln, rng.randrange(0, ln + 1)])
+        return ber.tlv(0, True, 16, bytes(b[hl : hl + keep]) + tail, form=rng.choice([0, 0, 2, 4]))
     if r < 0.45:
         # find an inner length octet and change it
         for _ in range(rng.choice([1, 1, 2])):
@@ -57,7 +62,11 @@ class C06(SessionProp):
         bad = bytes.fromhex("300e02010161090a0100040004056162")
         good = msgs.pack([1, [8, [0, b"", b"", []], [], []], []])
         pre = [[C_EXT, b"1.2", [], []]]
-        empties = [
+        hightag = [
+            {"role": r, "pre": [], "chunks": [e], "calls": [[RECV, e]], "meta": None, "damaged": 1}
+            for r in (0, 1) for e in (bytes.fromhex("3004020102" + "7f"), bytes.fromhex("3005020102" + "1f81"), bytes.fromhex("3003020101" + "") + b"", bytes.fromhex("30050201029f81"))
+        ]
+        empties = hightag + [
             {"role": r, "pre": [], "chunks": [e], "calls": [[RECV, e]], "meta": None, "damaged": 1}
             for r in (0, 1) for e in (bytes.fromhex("308100"), bytes.fromhex("30820000"), bytes.fromhex("308400000000"))
         ]
